@@ -13,7 +13,7 @@ LEVEL_TEXT = ("Explicit TLA+ specification of the map checked by TLC (type invar
               "replayed on the real page table (result + projected map after each step). Determinism is a property of "
               "sets of executions: decided by executing each history several times (same OS process and separate OS processes) and comparing.")
 LEVEL_NOTE = ("Bounded: 2 processes x 2 virtual pages x 2 physical pages x 4 page contents (quick); 3 x 2 x 2 x 3 "
-              "(thorough); with snapshots 3 x 1 x 2 x 2 (quick), 2 x 2 x 2 x 2 (thorough), one outstanding snapshot. Insert of a present key and update/remove of an absent key are misuse the statement is silent "
+              "(thorough); with snapshots 3 x 1 x 2 x 2 (quick), 3 x 1 x 2 x 3 (thorough), one outstanding snapshot. Insert of a present key and update/remove of an absent key are misuse the statement is silent "
               "about: only 'a refused operation changes nothing' is compared there. Equality of repeated executions "
               "cannot prove determinism, it can only refute it; a nondeterministic choice that happens to agree in all "
               "the executions of every history would be missed.")
